@@ -28,7 +28,7 @@ Quantifier: {quant}
 Why tests cannot settle it: {why}
 Code it is anchored in: {anchors}
 
-What a good defect looks like: the kind of change a maintainer could make by accident in a refactoring, optimisation, 'simplification', robustness tweak or feature addition (wrong comparison or boundary, wrong operand/attribute/source of a value, dropped or reordered step, ordering/tie-breaking/axis/layout mistake, aliasing or state leak, a condition that covers too little, siblings that drift apart, a cache, a unit or scale dependence, wrong default, off-by-one in an accumulation, exception path that leaves state behind, ...). It must need something specific to manifest (a particular kind of input, call sequence or data layout) so that the existing tests do not notice. Do not weaken or edit tests; change only files under src/pylife. Keep each change small (a few lines). Prefer DIFFERENT KINDS of mistake for your two defects, and prefer functions that the earlier work below did not touch (other files of the anchored code are welcome).
+What a good defect looks like: the kind of change a maintainer could make by accident in a refactoring, optimisation, 'simplification', robustness tweak or feature addition (wrong comparison or boundary, wrong operand/attribute/source of a value, dropped or reordered step, ordering/tie-breaking/axis/layout mistake, aliasing or state leak, a condition that covers too little, siblings that drift apart, a cache, a unit or scale dependence, wrong default, off-by-one in an accumulation, exception path that leaves state behind, ...). It must need something specific to manifest (an unusual input or data layout, a multi-step sequence of calls on the same object, a fault or exception at a particular point followed by further use, or two cooperating sites that each look fine alone) so that the existing tests - and ordinary use - do not notice at once. Do not weaken or edit tests; change only files under src/pylife. Keep each change small (a few lines). Prefer DIFFERENT KINDS of mistake for your two defects, and prefer functions that the earlier work below did not touch (other files of the anchored code are welcome).
 
 These sites/ideas were ALREADY used by earlier work - pick different functions or at least a clearly different mechanism:
 {used}
@@ -78,6 +78,9 @@ def main():
     props = {json.loads(l)["id"]: json.loads(l) for l in open("/verif/properties.jsonl")}
     man = json.load(open("/verif/MANIFEST.json"))
     claimed = [c["property_id"] for c in man["checks"]]
+    for extra in os.environ.get("EXTRA_PROPS", "").split():
+        if extra not in claimed:
+            claimed.append(extra)
     base = json.load(open("/root/.vp/BASELINE.json"))
     always = "\n".join("  - " + x for x in base["always_fail"])
     used = {}
